@@ -794,6 +794,30 @@ func ruleRoleChain(p *Prog, r *Result) {
 				}
 			}
 			if fetchKey == nil {
+				// the fetch loop may live in a helper method of the same plan
+				var helper *ssa.Function
+				allInstrs(fn, func(in ssa.Instruction) {
+					c, ok := in.(*ssa.Call)
+					if !ok {
+						return
+					}
+					h := c.Call.StaticCallee()
+					if h == nil || h.Signature.Recv() == nil || namedOf(h.Signature.Recv().Type()) != t {
+						return
+					}
+					for _, s := range p.storage().ByFn[h] {
+						if s.Method == "Cursor.Next" {
+							if fc, ok := s.Instr.(*ssa.Call); ok {
+								fetchKey, helper = extractOf(fc, 0), h
+							}
+						}
+					}
+				})
+				if helper != nil {
+					fn = helper
+				}
+			}
+			if fetchKey == nil {
 				r.hit(key, p.Pos(fn.Pos()), "no Cursor.Next fetch found")
 				continue
 			}
